@@ -402,20 +402,23 @@ let run_file (inp : in_channel) (out : out_channel) =
               let key = bytes_of_hex q in
               let ans =
                 match init_vars m with
-                | Panic -> if int_of_n (node_count m) = 0 then "-1 N S -1 -1 -1" else "PANIC"
+                | Panic -> if int_of_n (node_count m) = 0 then "-1 N S -1 -1 -1 V - - - R N" else "PANIC"
                 | Val vs ->
                   let fuel = nat_of_int (int_of_n (node_count m) + 2) in
                   let oid x = match x with None -> -1 | Some id -> int_of_nat id in
-                  (match mgetid fuel m vs key, mget fuel m vs key, msearchid fuel m vs key with
-                   | Ok g, Ok f, Ok ((l, e), r) ->
-                     Printf.sprintf "%d %s S %d %d %d"
-                       (oid g)
-                       (match f with
-                        | NotFound -> "N"
-                        | Found None -> "F:nil"
-                        | Found (Some b) -> "F:" ^ hex_of_bytes b)
-                       (oid l) (oid e) (oid r)
-                   | _, _, _ -> "PANIC") in
+                  let fstr f = match f with
+                    | NotFound -> "N"
+                    | Found None -> "F:nil"
+                    | Found (Some b) -> "F:" ^ hex_of_bytes b in
+                  let ov x = match x with
+                    | None | Some None -> "-"
+                    | Some (Some b) -> hex_of_bytes b in
+                  (match mgetid fuel m vs key, mget fuel m vs key, msearchid fuel m vs key,
+                         msearch fuel m vs key, mrangeget fuel m vs key with
+                   | Ok g, Ok f, Ok ((l, e), r), Ok ((lv, ev), rv), Ok rg ->
+                     Printf.sprintf "%d %s S %d %d %d V %s %s %s R %s"
+                       (oid g) (fstr f) (oid l) (oid e) (oid r) (ov lv) (ov ev) (ov rv) (fstr rg)
+                   | _, _, _, _, _ -> "PANIC") in
               Printf.fprintf out "q %s G %s\n" q ans)
          | "MS" :: rest -> run_ms out !last_m rest
          | "MT" :: _ -> run_mt out !last_m
